@@ -2552,10 +2552,40 @@ def collapse_aliases(fn):
                     n.ctx, (ast.Store, ast.Del))]
                 x_stores = [n for n in names if n.id == x and isinstance(
                     n.ctx, ast.Store)]
-                if len(y_stores) != 1 or not x_stores:
-                    continue
                 if any(isinstance(n, (ast.Global, ast.Nonlocal))
                        for n in ast.walk(fn)):
+                    continue
+                if len(y_stores) > 1 and len(x_stores) == 1 and (
+                        "__h" in x or "__inl" in x):
+                    # a generated name built up in this block and handed to
+                    # y at the end (y bound elsewhere too, but not mentioned
+                    # while x is alive): x is spelled y
+                    j = None
+                    for k_, s_ in enumerate(blk[:i]):
+                        if isinstance(s_, ast.Assign) and len(
+                                s_.targets) == 1 and \
+                                s_.targets[0] is x_stores[0]:
+                            j = k_
+                    if j is None:
+                        continue
+                    span = {id(n) for s_ in blk[j:i] for n in ast.walk(s_)}
+                    if any(n.id == y and id(n) in span for n in names):
+                        continue
+                    if any(n.id == x and id(n) not in span
+                           and n is not st.value for n in names):
+                        continue
+                    if any(isinstance(n, ast.Name) and n.id in (x, y)
+                           for d in ast.walk(fn) if d is not fn
+                           and isinstance(d, (ast.FunctionDef, ast.Lambda))
+                           for n in ast.walk(d)):
+                        continue
+                    for n in names:
+                        if n.id == x:
+                            n.id = y
+                    del blk[i]
+                    done = True
+                    break
+                if len(y_stores) != 1 or not x_stores:
                     continue
                 # nested functions capturing either name: leave alone
                 if any(isinstance(n, ast.Name) and n.id in (x, y)
